@@ -78,6 +78,9 @@ class IdentityRun(PubSubRun):
         self.prober.protected = True
         self.w.quiesce()
         self.universe = [T]
+        if self.ch.flag("cfg.client_stall", 1, 4):
+            # a client's own socket is occasionally unable to take data for a while
+            self.w.p_peer_stall = (1, 8)
 
     # ------------------------------------------------------------------ steps
     def draw_opts(self):
